@@ -588,3 +588,16 @@ def mo_compare(pid, observed):
             if all(mo_weaker(m, e) for e in exp):
                 bad.append("%s: expected %s, saw %s" % (site, "/".join(exp), m))
     return sorted(set(bad))
+
+
+def oracle_note(log_path, case):
+    """generic `post` for oracle-only parts: the first `note ORACLE ...` line of the log"""
+    try:
+        with open(log_path) as f:
+            for line in f:
+                i = line.find(" note ORACLE ")
+                if i >= 0:
+                    return "oracle " + line[i + 13:].strip()[:200]
+    except OSError:
+        pass
+    return None
